@@ -289,7 +289,22 @@ func runInsertBatches(e *core.Env) error {
 			}
 			bfl[f] = genFilter(r, 'n', val, false)
 		}
+		renamed := 0
 		ig, cig, err := buildIG("ig1", "t1", fields, ev, cols, agg, func(ci *config.Integration) {
+			// columns need not be named like the field they hold (trace columns keep their prefix: the
+			// indexing mode is chosen by it)
+			for i := range ci.Block {
+				if !isTraceField(ci.Block[i].Name) && r.Chance(1, 2) {
+					old := ci.Block[i].Column
+					ci.Block[i].Column = "c_" + old
+					for j := range ci.Table.Columns {
+						if ci.Table.Columns[j].Name == old {
+							ci.Table.Columns[j].Name = "c_" + old
+						}
+					}
+					renamed++
+				}
+			}
 			for f, g := range bfl {
 				if g.active {
 					ci.Block = append(ci.Block, dig.BlockData{Name: f, Column: f, Filter: g.dig()})
@@ -405,7 +420,7 @@ func runInsertBatches(e *core.Env) error {
 			declToks := fmt.Sprintf("%s %s %s %s %s %s _ %s", c.mode, aggTok, c.desc, iflTok, strings.Join(bsp, ";"), shTok, ctxTok(base, []string{"src_name", "ig_name", "chain_id"}))
 			cs := core.Case{Op: fmt.Sprintf("insertb %s %d %s", declToks, rep, batchTok), Impl: impl,
 				Nontrivial: strings.HasPrefix(impl, "ok ") && nItems > 1,
-				Tags:       []string{"insertb", "mode=" + c.mode, fmt.Sprintf("blocks=%d", len(blocks)), fmt.Sprintf("items=%d", min(nItems, 6)), fmt.Sprintf("declared-logs=%d", min(nDeclared, 4)), "impl:" + strings.SplitN(impl, " ", 2)[0], fmt.Sprintf("decoder-reuse=%d", rep)},
+				Tags:       []string{"insertb", "mode=" + c.mode, fmt.Sprintf("blocks=%d", len(blocks)), fmt.Sprintf("items=%d", min(nItems, 6)), fmt.Sprintf("declared-logs=%d", min(nDeclared, 4)), "impl:" + strings.SplitN(impl, " ", 2)[0], fmt.Sprintf("decoder-reuse=%d", rep), fmt.Sprintf("renamed-columns=%v", renamed > 0)},
 				Detail:     map[string]any{"block": cig.Block, "agg": cig.FilterAGG, "mode": c.mode, "desc": c.desc}}
 			if rep == 0 {
 				cs.Oracle = fmt.Sprintf("insertbspec %s %s %s", declToks, batchTok, quoteImpl(impl))
